@@ -14,16 +14,16 @@ import tempfile
 from mc.core.runner import InputProp
 from mc.core.space import Items, Concat, Space
 
-TITLES = [("A", 0), ("A b", 0), ("Ä", 0), ("中", 0), ("A.b", 0), ("A-b", 0), ("A~b", 0), ("~1~", 0),
+TITLES = [("A", 0), ("A b", 0), ("Ä", 0), ("ßeta", 0), ("中", 0), ("A.b", 0), ("A-b", 0), ("A~b", 0), ("~1~", 0),
           ("Template:T", 10), ("File:I.png", 6), ("Category:C", 14)]
 TEXTS = ["x", "", "a\nb", "a\r\nb", "--page--", "x\n --page-- {}", "\x0c --page-- {}", "x\n", "x\n\n", "\nx", " x ", "ü \U0001F600",
-         "\n\x0c--page--", "{\"title\": \"A\"}"]
+         "\n\x0c--page--", "{\"title\": \"A\"}", "x\r", "\r", "a\rb\r", "x\r\n", "\x0c", "x ", "\t"]
 METHODS = ["pages-batch", "pages-single", "expanded-revid", "expanded-norevid"]
 
 
 def page_histories(tier):
     """cases: (lang, [(title, ns, revid, text), ...] in write order, method)"""
-    titles = TITLES if tier != "quick" else TITLES[:3] + TITLES[6:9]
+    titles = TITLES if tier != "quick" else TITLES[:4] + TITLES[7:10]
     out = []
     # 1. one title, every text, every method
     for (t, ns) in titles:
